@@ -41,7 +41,9 @@ CONSTANTS Conns,          \* connection ids, all to R
           PsMaxProtos,    \* peerstore: SetProtocols refuses longer lists (pstoremem default 128)
           PsMaxAddrs,     \* peerstore: per-peer cap on unconnected addresses, new entries only (64)
           FailKinds,      \* ways an identify request fails
-          PushFailKinds   \* ways a push stream fails before consumeMessage
+          PushFailKinds,  \* ways a push stream fails before consumeMessage
+          StallPoints,    \* where the remote of an identify request goes silent (connection stays open)
+          PushStallPoints \* where the sender of a push stream goes silent
 
 Peers == {"R", "F"}
 Remote(c) == "R"
@@ -62,24 +64,39 @@ View == <<addr, protos, key, meta, cs, ntf, ent, idf>>
 
 ----------------------------------------------------------------------------
 (* tokens *)
-AddrTokens == {"pa", "pb", "lo", "ra", "big", "x", "fs", "rs", "sa", "sb"}
+AddrTokens == {"pa", "pb", "lo", "ra", "big", "x", "fs", "rs", "sa", "sb", "us", "d4", "d4s", "df", "dfs"}
 ProtoTokens == {"p1", "p2", "idpush", "pbig", "px"}
 AWf == [t \in AddrTokens |-> IF t = "big" THEN MaxAddrs - 2 ELSE 1]
 PWf == [t \in ProtoTokens |-> IF t = "pbig" THEN MaxProtos - 1 ELSE 1]
 RaConn == "c1"            \* the token "ra" is the RemoteMultiaddr of connection c1 (and has its class)
 AClass(t) == IF t \in {"pb", "sb"} THEN "priv" ELSE IF t = "lo" THEN "lo"
              ELSE IF t = "ra" THEN RClass[RaConn] ELSE "pub"
-ForeignSuffix(t) == t = "fs"      \* <addr>/p2p/F : the peerstore refuses it under R
+(* /p2p suffixes: fs = <a1>/p2p/F and us = <a2>/p2p/<unknown peer> travel ONLY in that form; rs = <a3>/p2p/R
+   (self) is kept without the suffix; d4 and d4s = <a4> and <a4>/p2p/R are one address listed twice; df and
+   dfs = <a5> and <a5>/p2p/F: the bare copy is R's claim, the suffixed one is refused.  The peerstore refuses
+   an address whose suffix names another peer; identify hands the list over as it is, so both copies count
+   towards its cap. *)
+ForeignSuffix(t) == t \in {"fs", "us", "dfs"}
+Canon(t) == IF t = "d4s" THEN "d4" ELSE t
 RecordTokens == {"sa", "sb"}      \* occur in signed records only
 
 LAddrs(k) == CASE k = "none" -> <<>>
                [] k = "own"  -> <<"pa", "pb", "lo">>
                [] k = "fsuf" -> <<"pa", "fs", "rs">>
                [] k = "big"  -> <<"pa", "ra", "big", "x">>
+               [] k = "suf1" -> <<"fs">>
+               [] k = "self1" -> <<"rs">>
+               [] k = "sufU" -> <<"pa", "us">>
+               [] k = "dups" -> <<"d4", "d4s", "df", "dfs">>
+               [] k = "bigd" -> <<"d4", "d4s", "big", "x">>
 RAddrs(k) == CASE k = "none" -> <<>>
                [] k = "own"  -> <<"sa", "sb">>
                [] k = "fsuf" -> <<"sa", "fs">>
                [] k = "big"  -> <<"sa", "ra", "big", "x">>
+               [] k = "suf1" -> <<"fs">>
+               [] k = "sufU" -> <<"sa", "us">>
+               [] k = "dups" -> <<"sa", "d4", "d4s", "df", "dfs">>
+               [] k = "bigd" -> <<"sa", "d4s", "big", "x">>
 PList(k) == CASE k = "none" -> <<>>
               [] k = "few"  -> <<"p1", "p2">>
               [] k = "push" -> <<"p1", "idpush">>
@@ -115,7 +132,7 @@ RecEffect(r) == IF r \in {"absent", "domain", "type", "garbage", "badsig"} THEN 
 Cand(m, rc) ==
   LET src == IF RecEffect(m.rec) = "record" THEN RAddrs(m.ra)
              ELSE IF RecEffect(m.rec) = "listen" THEN LAddrs(m.la) ELSE <<>>
-  IN {t \in Range(TruncW(Filter(src, rc), AWf, MaxAddrs)) : ~ForeignSuffix(t)}
+  IN {Canon(t) : t \in {u \in Range(TruncW(Filter(src, rc), AWf, MaxAddrs)) : ~ForeignSuffix(u)}}
 
 NoAddr == [ttl |-> "none", mode |-> "exact", set |-> {}, n |-> 0, must |-> {}]
 
@@ -246,23 +263,33 @@ Fail(c, why) ==
 
 (* virtual time passes the identify timeout: every identify in flight hits its stream deadline (no other
    step of the model lets time pass, so all of them were started at the same instant) *)
-Timeout ==
+Timeout(at) ==
   /\ \E c \in Conns : idf[c] = "run"
   /\ idf' = [c \in Conns |-> "idle"]
   /\ UNCHANGED <<PS, cs, ntf, ent>>
-  /\ op' = [name |-> "timeout", cs |-> {c \in Conns : idf[c] = "run"},
+  /\ op' = [name |-> "timeout", at |-> at, cs |-> {c \in Conns : idf[c] = "run"},
             evs |-> [i \in 1..Cardinality({c \in Conns : idf[c] = "run"}) |-> "failed"], pending |-> FALSE]
+
+(* a push stream whose sender goes silent: handlePush returns when the stream deadline fires; that much
+   virtual time ends every identify in flight as well *)
+PushStall(c, at) ==
+  /\ cs[c] # "new"
+  /\ idf' = [d \in Conns |-> "idle"]
+  /\ UNCHANGED <<PS, cs, ntf, ent>>
+  /\ op' = [name |-> "pushstall", c |-> c, at |-> at, cs |-> {d \in Conns : idf[d] = "run"},
+            evs |-> [i \in 1..Cardinality({d \in Conns : idf[d] = "run"}) |-> "failed"], pending |-> FALSE]
 
 Next == \/ \E c \in Conns : Open(c) \/ Connected(c) \/ IdentifyWait(c) \/ Disconnected(c)
         \/ \E c \in Conns, k \in BOOLEAN : Close(c, k)
         \/ \E c \in Conns, m \in Msgs : Push(c, m) \/ Done(c, m)
         \/ \E c \in Conns, w \in FailKinds : Fail(c, w)
         \/ \E c \in Conns, w \in PushFailKinds : PushFail(c, w)
-        \/ Timeout
+        \/ \E at \in StallPoints : Timeout(at)
+        \/ \E c \in Conns, at \in PushStallPoints : PushStall(c, at)
 
 Spec == Init /\ [][Next]_vars
 \* the identify goroutine always terminates: stream deadline / context timeout
-FairSpec == Spec /\ WF_vars(Timeout)
+FairSpec == Spec /\ WF_vars(\E at \in StallPoints : Timeout(at))
                  /\ (\A d \in Conns : WF_vars(Connected(d)) /\ WF_vars(Disconnected(d)))
 
 ----------------------------------------------------------------------------
@@ -306,7 +333,7 @@ RecordOnlyValid ==
 \* a message of which nothing may be used leaves no address behind, whatever was there
 RejectedLate == [][(op'.name \in {"push", "done"} /\ op'.used = "nothing") => addr'["R"] = NoAddr]_vars
 \* failures change nothing in the peerstore
-FailInert == [][op'.name \in {"fail", "pushfail", "timeout", "open", "close", "connected", "wait"} => UNCHANGED PS]_vars
+FailInert == [][op'.name \in {"fail", "pushfail", "timeout", "pushstall", "open", "close", "connected", "wait"} => UNCHANGED PS]_vars
 \* every identify-wait is eventually released (liveness, under FairSpec)
 WaitReleased == \A c \in Conns : (idf[c] = "run") ~> (idf[c] = "idle")
 \* no entry is left behind once the swarm has delivered everything
